@@ -218,12 +218,16 @@ def run(ctx):
                 if not items:
                     imp = None
             attr = (' import="%s"' % ", ".join(items)) if items else ""
-            main.append('<%%namespace name="n%d" file="/f%d.html"%s>%s</%%namespace>' % (i, i, attr, "".join('<%%def name="%s()">inline%d:%s</%%def>' % (x, i, x) for x in inline)))
-            specs.append((i, inline, file_defs, inh_defs, items))
+            # a namespace that is only imported from may be anonymous (several of them then stand on one source line)
+            anon = bool(items) and rng.random() < 0.4
+            main.append('<%%namespace %sfile="/f%d.html"%s>%s</%%namespace>' % ("" if anon else 'name="n%d" ' % i, i, attr, "".join('<%%def name="%s()">inline%d:%s</%%def>' % (x, i, x) for x in inline)))
+            specs.append((i, inline, file_defs, inh_defs, items, anon))
         x = rng.choice(NAMES)
         in_context = rng.random() < 0.5
         qualified = rng.random() < 0.4
-        i_q = rng.randrange(nns)
+        named = [sp[0] for sp in specs if not sp[5]]
+        qualified = qualified and bool(named)
+        i_q = rng.choice(named) if named else 0
         if qualified:
             main.append("${n%d.%s()}" % (i_q, x if x != "len" else "a"))
             x_eff = x if x != "len" else "a"
@@ -291,31 +295,53 @@ def run(ctx):
             req2.append("resolve|%d %s 1 4 %d %s" % (NAMES.index(x_eff), ("1 %d" % NAMES.index(x_eff)) if cv else "0", len(imp_specs),
                                                     " ".join("%s %d %s" % (ns_tok(sp[0], sp[1], sp[2], sp[3]), len(sp[4]), " ".join("*" if it == "*" else str(NAMES.index(it)) for it in sp[4])) for sp in imp_specs)))
         got2.append((case, obs))
-    ctx.generators["member_precedence"] = {"cases": nb}
+    ctx.generators["member_precedence"] = {"cases": nb, "anonymous_namespaces": sum(1 for c_, _ in got2 if "<%namespace file=" in c_["main"])}
 
     # ---- (c) include ---------------------------------------------------------------------------------------------
     req3, got3 = [], []
     P = ["x", "y", "z", "w"]
-    for _ in range(150 if tier == "quick" else 20000):
+    shapes = {}
+    for _ in range(200 if tier == "quick" else 20000):
         params = rng.sample(P, rng.randint(0, 3))
         given = {p: rng.choice([100 + P.index(p), 0, 0]) for p in rng.sample(P, rng.randint(0, 2)) if p in params}
         data = {p: 200 + P.index(p) for p in rng.sample(P, rng.randint(0, 4))}
+        # where the include stands: in the body; in a top-level def called after body-level assignments (which the def's context
+        # carries); in a def of a template that was itself included with page arguments (which that def's context carries)
+        shape = rng.choice(["body", "body", "def", "def-assigned", "nested-def"])
+        shapes[shape] = shapes.get(shape, 0) + 1
+        local = {}
+        if shape in ("def-assigned", "nested-def"):
+            local = {p: 300 + P.index(p) for p in rng.sample(P, rng.randint(1, 3))}
         lk = TemplateLookup()
         lk.put_string("/inc.html", '<%%page args="%s"/>' % ", ".join("%s=-1" % p for p in params) + "|".join("%s=${%s}" % (p, p) for p in params)
                       + "~${self.uri},${local.uri},${'parent' in context.keys()},${'next' in context.keys()}")
         lk.put_string("/base.html", "${next.body()}")
-        lk.put_string("/main.html", '<%%inherit file="/base.html"/><%%include file="/inc.html" args="%s"/>' % ", ".join("%s=%d" % kv for kv in given.items()))
+        inc_tag = '<%%include file="/inc.html" args="%s"/>' % ", ".join("%s=%d" % kv for kv in given.items())
+        if shape == "body":
+            main_src = '<%inherit file="/base.html"/>' + inc_tag
+        elif shape == "def":
+            main_src = '<%inherit file="/base.html"/><%def name="d()">' + inc_tag + "</%def>${d()}"
+        elif shape == "def-assigned":
+            main_src = ('<%inherit file="/base.html"/><% ' + "; ".join("%s = %d" % kv for kv in local.items()) + ' %><%def name="d()">' + inc_tag + "</%def>${d()}")
+        else:
+            lk.put_string("/mid.html", '<%%page args="%s"/><%%def name="d()">%s</%%def>${d()}' % (", ".join("%s=-2" % p for p in local), inc_tag))
+            main_src = '<%%inherit file="/base.html"/><%%include file="/mid.html" args="%s"/>' % ", ".join("%s=%d" % kv for kv in local.items())
+        lk.put_string("/main.html", main_src)
         ctx.evaluations += 1
-        ctx.nontrivial.add((tuple(params), tuple(sorted(given.items())), tuple(sorted(data.items()))))
+        ctx.nontrivial.add((shape, tuple(params), tuple(sorted(given.items())), tuple(sorted(data.items())), tuple(sorted(local.items()))))
         try:
             out = lk.get_template("/main.html").render(**data)
         except Exception as e:  # noqa
             out = "raised %s: %s" % (type(e).__name__, str(e)[:80])
-        want = "|".join("%s=%d" % (p, given.get(p, data.get(p, -1))) for p in params) + "~/inc.html,/inc.html,False,False"
-        case = {"parameters": params, "args": given, "context": data}
+        # the context as it stands at the point of the include
+        at_point = dict(data)
+        at_point.update(local)
+        want = "|".join("%s=%d" % (p, given.get(p, at_point.get(p, -1))) for p in params) + "~/inc.html,/inc.html,False,False"
+        case = {"parameters": params, "args": given, "context": data, "include_stands_in": shape, "names_the_enclosing_def_carries": local, "main": main_src}
         if out != want:
             ctx.violation(dict(case, rendered=out, expected=want), "an include takes its page arguments from args first and from the context second, as an independent template",
                           tags=["c07.include"])
+        data = at_point
         req3.append("kwargs|%s|%s|%s" % (" ".join(str(P.index(p)) for p in params), ",".join("%d:%d" % (P.index(k), v) for k, v in data.items()),
                                          ",".join("%d:%d" % (P.index(k), v) for k, v in given.items())))
         got3.append((case, sorted((P.index(p), given.get(p, data.get(p))) for p in params if p in given or p in data)))
